@@ -541,6 +541,26 @@ func init() {
 		c := fr.ctx()
 		return DecV{c.Mul(fr.p18(), c.TDiv(x, fr.p18()))}
 	})
+	reg(D+"Ceil", func(fr *frame, a []value) value {
+		// smallest integer-valued Dec >= x: x + ((-x) mod 10^18), Euclidean mod
+		x := decT(a[0])
+		c := fr.ctx()
+		if fr.ideal() {
+			// a real k with k-1 < x <= k (integrality dropped as for truncation); zero and
+			// the first unit are pinned: -1 < x <= 0 gives 0, x > 0 gives k >= 1
+			if k, ok := fr.i.eng.ceilOf[x]; ok {
+				return DecV{k}
+			}
+			k := c.Var(fr.i.eng.FreshName("kc"), smt.SReal)
+			fr.i.eng.ceilOf[x] = k
+			one := c.Real(big.NewRat(1, 1))
+			zero := c.Real(new(big.Rat))
+			fr.i.eng.addPC(c.And(c.Lt(c.Sub(k, one), x), c.Le(x, k),
+				c.Implies(c.And(c.Gt(x, c.Neg(one)), c.Le(x, zero)), c.Eq(k, zero)), c.Implies(c.Gt(x, zero), c.Ge(k, one))))
+			return DecV{k}
+		}
+		return DecV{c.Add(x, c.EMod(c.Neg(x), fr.p18()))}
+	})
 	reg(D+"RoundInt", func(fr *frame, a []value) value {
 		x := decT(a[0])
 		if fr.ideal() {
